@@ -829,7 +829,11 @@ func TestGeneratedParser(t *testing.T) {
 			rep.fail("C06/valid-fixture-generates-and-compiles", name, g.diag+g.buildErr)
 			return
 		}
-		inputs := tokenStrings(len(spec.tokens), spec.maxLen, spec.withErr)
+		maxLen := spec.maxLen
+		if thorough {
+			maxLen++ // one more token per input in the thorough tier
+		}
+		inputs := tokenStrings(len(spec.tokens), maxLen, spec.withErr)
 		var js []any
 		for _, in := range inputs {
 			js = append(js, in)
@@ -980,7 +984,7 @@ func TestGeneratedParser(t *testing.T) {
 		}
 		rep.sample(name)
 	})
-	rep.done(t, true, fmt.Sprintf("%d fixture grammars (recursion, nullable rules, ? * + *! @list @list?, @error placements, _onBounds); every token string up to length 5-6 (with lexer ERROR tokens for the @error fixtures), through the real generated parser", len(fx)))
+	rep.done(t, true, fmt.Sprintf("%d fixture grammars (recursion, nullable rules, ? * + *! @list @list?, @error placements, _onBounds); every token string up to length 5-6 (thorough: 6-7) (with lexer ERROR tokens for the @error fixtures), through the real generated parser", len(fx)))
 }
 
 // checkBounds: C16 for user-written productions.
